@@ -15,6 +15,8 @@
 #define private public
 #define protected public
 #include "ola/Callback.h"
+#include "ola/ExportMap.h"
+#include "common/rpc/RpcChannel.h"
 #include "ola/Logging.h"
 #include "ola/io/Descriptor.h"
 #include "ola/io/SelectServer.h"
@@ -100,6 +102,8 @@ struct Feeder {
   virtual bool put(const uint8_t *p, size_t n) = 0;
   virtual string state() = 0;
   virtual bool stopped() { return false; }
+  virtual size_t count() { return g_msgs.size(); }
+  virtual string summary() { return join(g_msgs, ","); }
 };
 
 struct UsbProFeeder : Feeder {
@@ -172,7 +176,49 @@ struct AcnFeeder : Feeder {
   bool stopped() { return !valid; }
 };
 
+// The RPC channel without a service: every frame whose body parses is counted by type in the
+// export map ("dispatched"); Close() on the descriptor marks a rejected stream.
+struct RpcFeeder : Feeder {
+  ola::ExportMap em;
+  ola::io::UnixSocket sock;
+  ola::io::UnixSocket *peer;
+  std::auto_ptr<ola::rpc::RpcChannel> ch;
+  RpcFeeder() : peer(NULL) {
+    if (!sock.Init()) abort();
+    peer = sock.OppositeEnd();
+    ch.reset(new ola::rpc::RpcChannel(NULL, &sock, &em));
+  }
+  ~RpcFeeder() { ch.reset(); delete peer; }
+  ola::io::ConnectedDescriptor *desc() { return &sock; }
+  bool put(const uint8_t *p, size_t n) {
+    size_t off = 0;
+    while (off < n) {
+      ssize_t w = write(peer->WriteDescriptor(), p + off, n - off);
+      if (w <= 0) return false;
+      off += w;
+    }
+    return true;
+  }
+  bool closed() { return !sock.ValidReadDescriptor(); }
+  bool stopped() { return closed(); }
+  size_t count() { return em.GetCounterVar("rpc-received")->Get(); }
+  string summary() {
+    ola::UIntMap *t = em.GetUIntMapVar("rpc-received-type", "type");
+    std::ostringstream o;
+    o << count() << "/" << (*t)["request"] << "/" << (*t)["response"] << "/" << (*t)["cancelled"] << "/"
+      << (*t)["failed"] << "/" << (*t)["not-implemented"] << "/" << (*t)["stream_request"]
+      << (closed() ? "X" : "");
+    return o.str();
+  }
+  string state() {
+    if (closed()) return "X";
+    return "e" + vh::str(ch->m_expected_size) + "c" + vh::str(ch->m_expected_size ? ch->m_current_size : 0) +
+           "h" + vh::str(ch->m_header_read);
+  }
+};
+
 static Feeder *make_feeder(const string &proto) {
+  if (proto == "rpc") return new RpcFeeder();
   if (proto == "usbpro") return new UsbProFeeder();
   if (proto == "robe") return new RobeFeeder();
   if (proto == "opc") return new OpcFeeder();
@@ -198,16 +244,16 @@ static string run_partition(const string &proto, const vector<uint8_t> &stream, 
       unsigned long guard = 0;
       while (f->desc()->DataRemaining() > 0 && !f->stopped()) {
         f->desc()->PerformRead();
-        if (++guard > 2000000) return "livelock";
+        if (++guard > 300000) return "livelock";
       }
     }
     pos += n;
-    steps.push_back(vh::str(g_msgs.size()) + "@" + f->state());
+    steps.push_back(vh::str(f->count()) + "@" + f->state());
   }
   g_fd = -1;
   g_cap = 0;
   *trace = join(steps, ",");
-  return join(g_msgs, ",");
+  return f->summary();
 }
 
 static string do_recv(const vector<string> &a) {
@@ -248,7 +294,9 @@ static string handle(const string &p) {
     return do_recv(a);
   }
   // <proto> <cap> <streamhex> <part>/<part>/...
-  if (a.size() != 4 || !(a[0] == "usbpro" || a[0] == "robe" || a[0] == "opc" || a[0] == "acn"))
+  // rpc has a fifth field (the bodies the protobuf parser rejects), used by the model only
+  if (!((a.size() == 4 && (a[0] == "usbpro" || a[0] == "robe" || a[0] == "opc" || a[0] == "acn")) ||
+        (a.size() == 5 && a[0] == "rpc")))
     return "bad-op";
   size_t cap = vh::num(a[1]);
   vector<uint8_t> stream = vh::unhex(a[2]);
